@@ -302,6 +302,25 @@ fn exec_op(
                 Err(e) => json!({"err": e.to_string()}),
             }
         }
+        "append_nested" => {
+            // meta nested `depth` levels, built here because the transport itself is JSON
+            let depth = req["depth"].as_u64().unwrap_or(0) as usize;
+            let meta = crate::gen::nested(depth, req["array"].as_bool().unwrap_or(false));
+            let topic = req["topic"].as_str().unwrap_or("deep");
+            if let Some(id) = parse_id(&req["import_id"]) {
+                let f = Frame::builder(topic, xs::store::ZERO_CONTEXT).id(id).meta(meta).build();
+                match store.insert_frame(&f) {
+                    Ok(()) => json!({"ok": true}),
+                    Err(e) => json!({"err": e.to_string()}),
+                }
+            } else {
+                let f = Frame::builder(topic, xs::store::ZERO_CONTEXT).meta(meta).build();
+                match store.append(f) {
+                    Ok(f) => json!({"ok": f.id.to_string()}),
+                    Err(e) => json!({"err": e.to_string()}),
+                }
+            }
+        }
         "import" => {
             let frame: Frame = match serde_json::from_value(req["frame"].clone()) {
                 Ok(f) => f,
